@@ -503,7 +503,8 @@ fn rows(w: &World) -> Vec<Row> {
         let mut r = prow("delete_position_bundle", &vfake, cw::ix_delete_bundle(be, o.key, receiver), vec![], vec![], vec![]);
         r.label = "delete_position_bundle[empty bundle]".into();
         // the attacker's analogous token is the token of his own empty bundle
-        r.twin = vec![(idx(&r.ix, &be.token_account), w.attacker_bundle_empty.token_account)];
+        // ... and the mint of that bundle: a mutually consistent foreign (mint, token account) pair next to the victim's bundle
+        r.twin = vec![(idx(&r.ix, &be.token_account), w.attacker_bundle_empty.token_account), (idx(&r.ix, &be.mint), w.attacker_bundle_empty.mint)];
         out.push(r);
     }
 
